@@ -441,3 +441,287 @@ def aligner_locate_distance(c):
     c.mutant("if last < m:\n            last += 1", "if last < m:\n            pass")
     c.mutant("cost_deletion = previous_entry.cost + deletion_cost", "cost_deletion = current_entry.cost + deletion_cost")
     c.mutant("min_n = max(0, n - m - k)", "min_n = max(0, n - m - k + 1)")
+
+
+# ------------------------------------------------------------------------------ finite, exhaustive parts
+IUPAC_SETS = dict(A="A", C="C", G="G", T="T", U="T", R="AG", Y="CT", S="GC", W="AT", K="GT", M="AC", B="CGT", D="AGT", H="ACT",
+                  V="ACG", N="ACGT", X="")
+PLACEMENT = {   # from the statement / guide: which ends may be skipped at no cost, per adapter type
+    "BACK": {"QUERY_START", "QUERY_STOP", "REFERENCE_END"},            # regular 3'
+    "FRONT": {"QUERY_START", "QUERY_STOP", "REFERENCE_START"},         # regular 5'
+    "PREFIX": {"QUERY_STOP"},                                          # anchored 5'
+    "SUFFIX": {"QUERY_START"},                                         # anchored 3'
+    "FRONT_NOT_INTERNAL": {"REFERENCE_START", "QUERY_STOP"},           # non-internal 5'
+    "BACK_NOT_INTERNAL": {"QUERY_START", "REFERENCE_END"},             # non-internal 3'
+    "ANYWHERE": {"QUERY_START", "QUERY_STOP", "REFERENCE_START", "REFERENCE_END"},
+}
+CLASS_WHERE = {"FrontAdapter": "FRONT", "RightmostFrontAdapter": "BACK", "BackAdapter": "BACK", "AnywhereAdapter": "ANYWHERE",
+               "NonInternalFrontAdapter": "FRONT_NOT_INTERNAL", "NonInternalBackAdapter": "BACK_NOT_INTERNAL",
+               "PrefixAdapter": "PREFIX", "SuffixAdapter": "SUFFIX"}
+FLAG_FIELDS = {"start_in_reference": "REFERENCE_START", "start_in_query": "QUERY_START", "stop_in_reference": "REFERENCE_END",
+               "stop_in_query": "QUERY_STOP"}
+
+
+def finite_checks():
+    """Returns (entries for evidence, list of failure strings)."""
+    import ast as _ast
+    import os
+    import re
+    from pyvc import frontends
+    fails = []
+    # --- 1. character tables: 3 modes x 128 x 128 against the IUPAC relation written out above
+    src = open(os.path.join(frontends.SRC, "_match_tables.py")).read()
+    ns = {}
+    exec(compile(src, "_match_tables.py", "exec"), ns)
+    acgt, iupac, upper = ns["_acgt_table"](), ns["_iupac_table"](), ns["_upper_table"]()
+
+    def bases(ch, wildcard):
+        """Set of nucleotides a character stands for (None = 'not a nucleotide': matches only N)."""
+        u = chr(ch).upper()
+        if wildcard:
+            return set(IUPAC_SETS[u]) if u in IUPAC_SETS else set()
+        return {"T" if u == "U" else u} if u in "ACGTU" else None
+
+    pairs = 0
+    for mode, (rt, qt) in {"adapter_wildcards": (iupac, acgt), "read_wildcards": (acgt, iupac), "both": (iupac, iupac)}.items():
+        for r in range(128):
+            for q in range(128):
+                pairs += 1
+                got = (rt[r] & qt[q]) != 0
+                rb, qb = bases(r, mode != "read_wildcards"), bases(q, mode != "adapter_wildcards")
+                r_is_n = mode != "read_wildcards" and chr(r).upper() == "N"
+                q_is_n = mode != "adapter_wildcards" and chr(q).upper() == "N"
+                if rb is None and qb is None:
+                    want = False if mode != "both" else False
+                elif rb is None:
+                    want = q_is_n
+                elif qb is None:
+                    want = r_is_n
+                else:
+                    want = bool(rb & qb) or (r_is_n and q_is_n)
+                if mode == "adapter_wildcards" and qb is None:
+                    want = r_is_n                    # N matches everything, also non-ACGT
+                if mode == "read_wildcards" and rb is None:
+                    want = q_is_n
+                if got != want:
+                    fails.append(f"tables[{mode}]: {chr(r)!r} vs {chr(q)!r}: code says {got}, IUPAC says {want}")
+    for q in range(128):
+        pairs += 1
+        if upper[q] != ord(chr(q).upper()):
+            fails.append(f"upper table at {q}")
+    # --- 2. flag constants and their use
+    tree = frontends.py_module("align.py")[1]
+    endskip = {}
+    for st in frontends.find_py(tree, "EndSkip").body:
+        if isinstance(st, _ast.Assign) and isinstance(st.value, _ast.Constant):
+            endskip[st.targets[0].id] = st.value.value
+    atree = frontends.py_module("adapters.py")[1]
+    where = {}
+    for st in frontends.find_py(atree, "Where").body:
+        if isinstance(st, _ast.Assign):
+            where[st.targets[0].id] = eval(compile(_ast.Expression(st.value), "w", "eval"), {"EndSkip": type("E", (), endskip)})
+    for name, allowed in PLACEMENT.items():
+        want = sum(endskip[f] for f in allowed)
+        if where.get(name) != want:
+            fails.append(f"Where.{name} = {where.get(name)}, the placement rule of the statement needs {want} ({sorted(allowed)})")
+    cin = frontends.extract("_align.pyx", "Aligner.__cinit__").text
+    for field, flag in FLAG_FIELDS.items():
+        if not re.search(rf"self\.{field} = \(?flags & {endskip[flag]}\)?", cin):
+            fails.append(f"Aligner.__cinit__: self.{field} is not `flags & {endskip[flag]}` ({flag})")
+    for cls, wname in CLASS_WHERE.items():
+        m = frontends.find_py(atree, f"{cls}._aligner")
+        if m is None:
+            # inherited
+            continue
+        txt = _ast.unparse(m)
+        if f"Where.{wname}.value" not in txt:
+            fails.append(f"{cls}._aligner does not use Where.{wname}")
+        if cls in ("FrontAdapter", "BackAdapter", "RightmostFrontAdapter") and "Where.ANYWHERE.value if self._force_anywhere" not in txt:
+            fails.append(f"{cls}._aligner: `anywhere` override changed")
+    entries = [{"name": "character tables vs IUPAC relation; Where/EndSkip constants; class -> flag set", "cases": pairs + len(PLACEMENT) + len(CLASS_WHERE) + 4,
+                "exhaustive": True}]
+    return entries, fails
+
+
+def extra_checks(res, tier, seed, known, log):
+    from pyvc import runner
+    entries, fails = finite_checks()
+    res.finite += entries
+    if fails:
+        path = runner.write_replay("C01", "finite_tables", {"property": "C01", "obligation": "finite:tables_and_flags", "failures": fails[:20]})
+        res.violations.append({"replay": path})
+
+
+# ------------------------------------------------------------------------------ comparers (anchored adapters without indels)
+HAM = z3.Function("HAM", AII, AII, B, I, I)    # HAM(r, q, ascii, k) = number of t < k with not EQc(r[t], q[t])
+
+
+def ham_spec(cx):
+    locate_spec(cx)
+    if "HAM" in cx.spec:
+        return
+    seen = set()
+    k = z3.Int("k!hm")
+
+    def eqc(ca, x, y):
+        return z3.If(ca, x == y, BAND(x, y) != 0)
+
+    def ham(r, q, ca, kk):
+        from pyvc import heap
+        arr_of = lambda v: v if is_z3(v) else (v.arr if isinstance(v, CArr) else as_str(v).arr)
+        ra = heap.named_array(cx, arr_of(r))
+        qa = heap.named_array(cx, arr_of(q))
+        if not (z3.is_const(ca) and ca.decl().kind() == z3.Z3_OP_UNINTERPRETED) and not z3.is_true(ca) and not z3.is_false(ca):
+            names = cx.__dict__.setdefault("_named_bools", {})
+            if ca.get_id() not in names:
+                nb = fresh("flag", B)
+                cx.axioms.append(nb == ca)
+                names[ca.get_id()] = nb
+            ca = names[ca.get_id()]
+        key = (ra.get_id(), qa.get_id(), ca.get_id())
+        if key not in seen:
+            seen.add(key)
+            cx.axioms.append(HAM(ra, qa, ca, 0) == 0)
+            cx.axioms.append(z3.ForAll([k], z3.Implies(k > 0, HAM(ra, qa, ca, k) == HAM(ra, qa, ca, k - 1) + z3.If(eqc(ca, ra[k - 1], qa[k - 1]), 0, 1)),
+                                       patterns=[HAM(ra, qa, ca, k)]))
+        return HAM(ra, qa, ca, kk)
+
+    cx.spec["HAM"] = ham
+
+
+ComparerT = ObjT("PrefixComparer", reference=CArrT("r_ptr", byte=True), wildcard_ref=Bool, wildcard_query=Bool, m=Int, max_k=Int,
+                 effective_length=Int, min_overlap=Int)
+
+
+@contract("_align.pyx", "PrefixComparer.locate", props=["C01", "C02"])
+def prefix_comparer_locate(c):
+    c.types(self=ComparerT, query=Str)
+    c.returns(OptT(TupT(Int, Int, Int, Int, Int, Int)))
+    c.spec(ham_spec)
+    c.requires(sizes="self.m >= 0 and len(self.reference) == self.m", size_limit="self.m <= 1000000000 and len(query) <= 1000000000")
+    c.c_int_bits = 32
+    c.ghost_results = {"g_ca": "bool", "g_q": "array"}
+    c.ghost("__define__('g_ca', compare_ascii)\n__define__('g_q', q_ptr)", after="q_ptr = query_bytes")
+    inv = ["0 <= i_next <= length and length == min(self.m, len(query)) and n == len(query)",
+           "errors == HAM(r_ptr, q_ptr, g_ca, i_next)", "0 <= errors <= i_next"]
+    c.loop(1, head="for i in range(length)", inv=inv + ["g_ca"])
+    c.loop(2, head="for i in range(length)", inv=inv + ["not g_ca"])
+    LEN = "min(self.m, len(query))"
+    ERR = f"HAM(self.reference, g_q, g_ca, {LEN})"
+    c.ensures(
+        reported_iff_mismatches_within_budget_and_overlap_reached=f"is_none(result) == ({ERR} > self.max_k or {LEN} < self.min_overlap)",
+        anchored_at_both_starts_and_errors_are_the_hamming_distance=f"implies(not is_none(result), val(result)[0] == 0 and val(result)[2] == 0 and val(result)[1] == {LEN} and "
+                                                                    f"val(result)[3] == {LEN} and val(result)[5] == {ERR} and val(result)[4] == {LEN} - 2 * {ERR})",
+    )
+    c.mutant("errors > self.max_k", "errors >= self.max_k")
+    c.mutant("if r_ptr[i] != q_ptr[i]", "if r_ptr[i] == q_ptr[i]")
+    c.mutant("length < self.min_overlap", "length <= self.min_overlap")
+    c.mutant("(r_ptr[i] & q_ptr[i]) == 0", "(r_ptr[i] & q_ptr[i]) != 0")
+
+
+@contract("_align.pyx", "SuffixComparer.locate", props=["C01", "C02"])
+def suffix_comparer_locate(c):
+    c.types(self=ObjT("SuffixComparer", **ComparerT.fields), query=Str)
+    c.returns(OptT(TupT(Int, Int, Int, Int, Int, Int)))
+    c.spec(ham_spec)
+    c.requires(sizes="self.m >= 0 and len(self.reference) == self.m", size_limit="self.m <= 1000000000 and len(query) <= 1000000000")
+    LEN = "min(self.m, len(query))"
+    c.ensures(
+        anchored_at_both_ends="implies(not is_none(result), val(result)[1] == self.m and val(result)[3] == len(query) and "
+                              f"val(result)[0] == self.m - {LEN} and val(result)[2] == len(query) - {LEN})",
+        same_decision_and_errors_as_the_prefix_comparison_of_the_reversed_strings=
+            "is_none(result) == is_none(result_) and implies(not is_none(result), val(result)[5] == val(result_)[5] and val(result)[4] == val(result_)[4])".replace("result_", "cg_result"),
+    )
+    c.mutant("n - length, n", "n - length, n - 1")
+    c.mutant("self.m - length, self.m", "0, length")
+
+
+def _suffix_fix(c):
+    # the local `result` of the code is the prefix comparer's answer; expose it to the postcondition
+    c._ensures = [(k_, e.replace("cg_result", "g_prefix_result")) for k_, e in c._ensures]
+    c.ghost("g_prefix_result = result", after="result = super().locate(query[::-1])")
+
+
+_suffix_fix(suffix_comparer_locate)
+
+
+SetRefT = ObjT("Aligner", column=CArrT("column", fields=["cost", "score", "origin"]), n_counts=CArrT("n_counts"), m=Int, effective_length=Int,
+               wildcard_ref=Bool, wildcard_query=Bool, _reference=CArrT("s1", byte=True), reference=Str)
+NCNT = z3.Function("NCNT", AII, I, I)        # number of N/n among the first k reference characters
+
+
+def ncnt_spec(cx):
+    locate_spec(cx)
+    if "NCNT" in cx.spec:
+        return
+    seen = set()
+    k = z3.Int("k!nc")
+
+    def ncnt(s, kk):
+        a = as_str(s).arr
+        if a.get_id() not in seen:
+            seen.add(a.get_id())
+            cx.axioms.append(NCNT(a, 0) == 0)
+            cx.axioms.append(z3.ForAll([k], z3.Implies(k > 0, NCNT(a, k) == NCNT(a, k - 1) + z3.If(z3.Or(a[k - 1] == 78, a[k - 1] == 110), 1, 0)),
+                                       patterns=[NCNT(a, k)]))
+        return NCNT(a, kk)
+    cx.spec["NCNT"] = ncnt
+
+
+def _realloc(ex, st, args, kwargs, node, spec):
+    """PyMem_Realloc(ptr, bytes): a buffer of the requested number of elements (sizeof is folded to 1 by the lowering)."""
+    old = args[0]
+    n = args[1]
+    if isinstance(old.arr, dict):
+        arr = {f_: fresh(f"realloc.{f_}", AII) for f_ in old.arr}
+    else:
+        arr = fresh("realloc", AII)
+    return CArr(arr, n, None, old.name)
+
+
+BUILTINS["PyMem_Realloc"] = _realloc
+
+
+@contract("_align.pyx", "Aligner._set_reference", props=["C01"])
+def aligner_set_reference(c):
+    c.types(self=SetRefT, reference=Str)
+    c.modifies = ["self"]
+    c.spec(ncnt_spec)
+    c.raises("ValueError", when="self.wildcard_ref and NCNT(reference, len(reference)) == len(reference)")
+    c.raises("MemoryError", when=None)
+    c.inline.update({"translate"})
+    c.loop(1, head="for i in range(self.m)", inv=[
+        "0 <= i_next <= self.m and self.m == len(reference) and len(self.n_counts) == self.m + 1 and len(self.column) == self.m + 1",
+        "n_count == NCNT(reference, i_next)", "forall(t, 0, i_next, code(self.n_counts, t) == NCNT(reference, t))",
+        "self.effective_length == self.m"])
+    c.ghost("__lemma__('count_is_ncnt', reference)", before="assert self.n_counts[self.m] == reference.count('N') + reference.count('n')")
+    c.ensures(
+        buffers_sized_for_the_reference="self.m == len(reference) and len(self.column) == self.m + 1 and len(self.n_counts) == self.m + 1 and len(self._reference) == self.m",
+        n_counts_are_prefix_counts_of_N="forall(t, 0, self.m + 1, code(self.n_counts, t) == NCNT(reference, t))",
+        effective_length_discounts_N_only_with_adapter_wildcards="self.effective_length == (self.m - NCNT(reference, self.m) if self.wildcard_ref else self.m)",
+    )
+    c.mutant("self.n_counts[i] = n_count", "self.n_counts[i] = n_count + 1")
+    c.mutant("self.effective_length = self.m - self.n_counts[self.m]", "self.effective_length = self.m")
+
+
+@lemma("count_is_ncnt", props=["C01"])
+def count_is_ncnt(lem):
+    """COUNT(s, k, 'N') + COUNT(s, k, 'n') == NCNT(s, k) — induction on k."""
+    from pyvc.world import COUNT
+    a = z3.Const("a!cn", AII)
+    k, j = z3.Ints("k!cn j!cn")
+
+    def axioms_for(a):
+        out = [NCNT(a, 0) == 0, COUNT(a, 0, 78) == 0, COUNT(a, 0, 110) == 0,
+               z3.ForAll([j], z3.Implies(j > 0, NCNT(a, j) == NCNT(a, j - 1) + z3.If(z3.Or(a[j - 1] == 78, a[j - 1] == 110), 1, 0)), patterns=[NCNT(a, j)])]
+        for ch in (78, 110):
+            out.append(z3.ForAll([j], z3.Implies(j > 0, COUNT(a, j, ch) == COUNT(a, j - 1, ch) + z3.If(a[j - 1] == ch, 1, 0)), patterns=[COUNT(a, j, ch)]))
+        return out
+
+    def prove(lx):
+        ax = axioms_for(a)
+        lx.vc("base", ax, COUNT(a, 0, 78) + COUNT(a, 0, 110) == NCNT(a, 0))
+        lx.vc("step", ax + [k >= 0, COUNT(a, k, 78) + COUNT(a, k, 110) == NCNT(a, k)], COUNT(a, k + 1, 78) + COUNT(a, k + 1, 110) == NCNT(a, k + 1))
+
+    lem.prove = prove
+    lem.statement = lambda s: z3.And(*axioms_for(as_str(s).arr), COUNT(as_str(s).arr, as_str(s).n, 78) + COUNT(as_str(s).arr, as_str(s).n, 110) == NCNT(as_str(s).arr, as_str(s).n))
